@@ -261,14 +261,21 @@ def header_variants(n, tier):
     default = ('all', None, None, 'active', None)
     idm = ['none'] + [('missing', k) for k in range(n)] if n > 1 else ['none']
     dims = [idm, ERR[1:], ORDER[1:], STORES[1:], PRE[1:]]
+    quick = tier == 'quick'
     out = [default]
     for d, vals in enumerate(dims):
+        if quick and n >= 3 and d == 2:
+            continue        # quick: the order option only on batches of length <= 2
         for v in vals:
+            if quick and n >= 3 and d == 4 and v != 'continue':
+                continue
             h = list(default)
             h[d] = v
             out.append(tuple(h))
     if n <= 2:
         for d1, d2 in itertools.combinations(range(5), 2):
+            if quick and 2 in (d1, d2):
+                continue    # quick: no pairs involving the order option
             for v1 in dims[d1]:
                 for v2 in dims[d2]:
                     h = list(default)
